@@ -193,7 +193,7 @@ PROPS = {
         "rule": "type-directed generators for every wire type (SessionData, SessionEstablishment, COSE_Key of every curve/key type and odd coordinate lengths, Handover variants, SessionTranscript, ItemsRequest/DocRequest/DeviceRequest, DeviceResponse with application-specific error codes and every status, "
                 "ValidityInfo with non-UTC offsets and sub-second parts, DeviceKeyInfo/KeyAuthorizations/key info, BLE/NFC/Wi-Fi/server retrieval options, DeviceEngagement, Mso, IssuerSigned, IssuerSignedItemBytes, Mdoc, device::Document, DigestId, DigestAlgorithm, both status tables over 0..39, error codes at boundaries, NFC length bounds, out-of-domain rejects); "
                 "per value: Rust to_vec/from_slice/to_vec (same value, byte fixed point), Lean CBOR-layer re-encoding and typed-model re-encoding must reproduce the bytes; JWK conversion and UTC/second-precision time emission checked by Lean predicates. Distinct by encoded bytes",
-        "xlate_items": ["session.rs::Status", "device_response.rs::Status", "wire-structs", "signature_algorithm"],
+        "xlate_items": ["session.rs::Status", "device_response.rs::Status", "wire-structs", "signature_algorithm", "EC2Curve", "OKPCurve"],
         "trusted_base": ["Model/Cbor.lean as model of ciborium's Value codec (validated on every generated encoding)", "Model/Wire.lean typed codecs (hand-written; status tables generated) validated by re-encoding real bytes",
                          "Spec/Time.lean civil-date arithmetic validated against the `time` crate", "ssi-jwk JSON view used by the harness to read JWK fields"],
         "level_text": "Lean theorems: dec(enc v) = v, byte fixed point and injectivity for EVERY well-formed CBOR value (structural induction, no size bound); typed round trips for SessionData, COSE_Key, Tag24 (bytes preserved), SessionEstablishment, both status tables (regenerated), error codes incl. rejection of RFU codes; generic lift from tree-level to byte-level round trip. Generic schema layer (Model/Schema.lean, WireSchemas.lean): ONE typed decode-and-re-encode function for serde structs (any input field order, unknown entries, explicit nulls), BTreeMaps (re-sorted, last value wins), Tag24 (bytes preserved), tuples, arrays and untagged alternatives, with a theorem by mutual structural induction over schemas that re-encoding is a fixed point for EVERY item of EVERY one of 16 named wire structures (DeviceRequest/Response with documents, items, MSO, validity and key info, COSE keys, session messages, handover; DeviceEngagement is outside the theorem's side condition and covered by correspondence). The field names, order and optionality of the 13 serde-derived structs are re-extracted from the source on every run and proved equal to the schema instances' (C16_wire_fields_match_source). Every instance is validated against the real library's re-encoding of every generated message and of foreign presentations of it (reversed maps, unknown entries, null options). The remaining types are correspondence-only and named in the evidence.",
@@ -217,7 +217,7 @@ PROPS = {
         "rule": "every message emitted in generated sessions is fed as raw bytes to the Lean CDDL validator: device engagements for 37 retrieval configurations (no / BLE central, peripheral, both, with address, neither / NFC at boundary lengths / Wi-Fi with every subset of its optional fields / combinations / server retrieval), "
                 "session establishment, every request (decrypted) and response (decrypted: normal single- and multi-document, unheld-document errors, status 11/12 error responses), status-carrying SessionData, and issued MSOs for six device-key kinds (P-256, P-384, P-521, secp256k1, Ed25519, Ed448) x three digest algorithms with key authorisations, key info, expected update, non-UTC sub-second validity; "
                 "plus the device-signature algorithm vs device-key curve check on every returned document. Distinct by message bytes",
-        "xlate_items": ["session.rs::Status", "device_response.rs::Status", "wire-structs", "signature_algorithm"],
+        "xlate_items": ["session.rs::Status", "device_response.rs::Status", "wire-structs", "signature_algorithm", "EC2Curve", "OKPCurve"],
         "trusted_base": ["Spec/Cddl.lean: the validator, transcribed by hand from the ISO 18013-5 CDDL as recalled in DESIGN.md Appendix A (no copy of the standard in the sandbox)",
                          "Generated/Tables.lean: status tables and the CoseKey::signature_algorithm table translated from the source on every run", "Model/Wire.lean typed encoders for the modelled subset, tied by the C16 correspondence",
                          "harness decrypts request/response ciphertexts with the session keys read from the stringified state"],
